@@ -18,6 +18,7 @@ struct Dialect {
     int switch_override = -1;
     // named quirks (tied to known_findings.json entries; all false on a repaired tree)
     bool q_start_not_busy = false;       // F-D: back start() runs posted events re-entrantly
+    bool q_mp_action_defer_requeue = true; // KF-2: backmp11 re-queues an occurrence that a Defer action defers again at the back of the pool
 };
 
 struct MEv { int16_t ev; int32_t occ; };
